@@ -111,6 +111,13 @@ Contexts(tx) ==
        [ctx |-> "function-arg-compact", entry |-> "term",    text |-> "join(x," \o tx \o ")"],
        [ctx |-> "nested-arg",           entry |-> "complex", text |-> "f(g(" \o tx \o "), x)"],
        [ctx |-> "nested-last-compact",  entry |-> "complex", text |-> "f(x, g(y," \o tx \o "))"],
+       (* next to a float, to an atom with a period and a blank, to a quoted atom with a comma *)
+       [ctx |-> "after-float",          entry |-> "complex", text |-> "f(1.5, " \o tx \o ")"],
+       [ctx |-> "before-float",         entry |-> "complex", text |-> "f(" \o tx \o ", 0.25)"],
+       [ctx |-> "after-dotted-atom",    entry |-> "complex", text |-> "f(Mr. Smith, " \o tx \o ")"],
+       [ctx |-> "after-quoted",         entry |-> "complex", text |-> "f(\"a, b\", " \o tx \o ")"],
+       [ctx |-> "list-after-float",     entry |-> "list",    text |-> "[1.5, " \o tx \o "]"],
+       [ctx |-> "builtin-after-float",  entry |-> "subgoal", text |-> "print(1.5, " \o tx \o ")"],
        [ctx |-> "rule-head-last-compact", entry |-> "rule",  text |-> "h(x," \o tx \o ")."],
        [ctx |-> "rule-body-last-compact", entry |-> "rule",  text |-> "h :- g(x," \o tx \o ")."] >>
 
